@@ -199,6 +199,12 @@ fn pc_typed<T: Elem>(p: &PcParams) {
                 if never {
                     // Writer gone. All of it must still be there.
                     let (rb, _) = r.read_buf().unwrap();
+                    if rb.len() >= need {
+                        violate(
+                            "wait-contradicts-commit",
+                            format!("wait_for_read({need}) said 'never' with {} samples buffered: the wait is not atomic with the commit", rb.len()),
+                        );
+                    }
                     if (rb.len() as u64) < total as u64 - (next - 1) {
                         violate("lost-data", format!("writer gone, {} of {} remaining samples readable", rb.len(), total as u64 - (next - 1)));
                         return;
